@@ -64,11 +64,16 @@ SPEC DECISION D14 : the application only releases references it holds (`appRelea
 SPEC DECISION D15 : "the oldest idle one when the idle-session limit is reached" is the rule of coap_endpoint_get_session,
                     i.e. of sessions created from datagrams; accepting a stream connection (coap_new_server_session) does
                     no idle accounting and evicts nothing (a stream session is bound to its connection).
-SPEC DECISION D16 : call home is modelled for datagram sessions, and the application ends a call-home session (releases the
-                    reference coap_session_set_type_client() gave it) when nothing else refers to the session (`ref == 1`);
-                    releasing it earlier hands the session's life to whichever library object lets go last (libcoap then
-                    frees the session from inside that object's release, e.g. in the middle of handle_request) — outside
-                    the property's alphabet ("application reference/release calls": the application releases LAST).
+SPEC DECISION D16 : call home is modelled for datagram sessions.  (Round R12c LIFTED the rest of D16: the application may
+                    release the reference coap_session_set_type_client() gave it at ANY time; if other holders remain the
+                    session lives on as a CLIENT session and libcoap frees it from inside whichever release comes last —
+                    `St.releaseHolder`.  In the datagram receive path that was a use after free — handle_request →
+                    coap_delete_observer freed the session in the middle of the dispatch — fixed by 0081e3a: a temporary
+                    reference around the handling of the datagram in coap_read_endpoint, as the stream path has.)
+SPEC DECISION D17 : the application passes the pointer of a CLIENT session to libcoap only while it holds a reference on
+                    it (call-home or coap_session_reference): `coap_session_disconnected(session)` on a client session the
+                    application holds no reference on is skipped (an unreferenced client session may be freed by any
+                    library call — here by the coap_delete_observers inside coap_session_disconnected_lkd itself).
 -/
 namespace Coap.Sessions
 
@@ -312,6 +317,16 @@ def St.clientFree (st : St) (sid : Nat) : St :=
              sessions := st.sessions.filter (fun t => t.sid ≠ sid),
              ledger := (st.dropPartial sid).ledger ++ [.free sid] }
 
+/-- the holder object goes away, with `coap_session_release_lkd(h->session)` IN FULL: `--ref` (`St.dropHolder`), then
+    `if (session->ref == 0 && session->type == COAP_SESSION_TYPE_CLIENT) coap_session_free(session)` (`St.clientFree`):
+    a session the application has taken over (call home) and whose call-home reference it has already released is freed
+    from inside whichever library object lets go LAST — coap_free_async_sub, coap_delete_node_lkd (give-up of
+    coap_retransmit), coap_delete_observer (coap_free_resource, coap_free_context), the application's own
+    coap_session_release.  On a server session, or while another reference is left, this is `St.dropHolder`. -/
+def St.releaseHolder (st : St) (h : Holder) : St := (st.dropHolder h).clientFree h.sid
+
+def St.releaseHolders (st : St) (hs : List Holder) : St := hs.foldl St.releaseHolder st
+
 /-- `coap_make_session` + SESSIONS_ADD + COAP_EVENT_SERVER_SESSION_NEW -/
 def St.newSession (st : St) (p : Peer) : St :=
   { st with
@@ -378,7 +393,7 @@ def St.retransmit (st : St) (h : Holder) : St :=
             if x = h then { h with kind := .node (cnt + 1) (st.now + ACK_TIMEOUT_TICKS * 2 ^ (cnt + 1)) } else x }
       else
         -- give up: con_active--, coap_session_connected (flush of the session's delay queue), NACK, coap_delete_node_lkd
-        ((st.updSess h.sid fun s => { s with conActive := s.conActive - 1 }).flushDelayed h.sid).dropHolder h
+        ((st.updSess h.sid fun s => { s with conActive := s.conActive - 1 }).flushDelayed h.sid).releaseHolder h
     else st
   | _ => st
 
@@ -450,7 +465,7 @@ def St.fireAsync (st : St) (now : Nat) (h : Holder) : St :=
     if h ∈ st.holders && due ≠ 0 && due ≤ now then
       let st1 := { st with now := st.now + dur }
       -- coap_send_pdu on a closed stream session: -1, nothing is written
-      (st1.updSess h.sid fun s => if s.closed then s else { s with last := st1.now, notes := s.notes + 1 }).dropHolder h
+      (st1.updSess h.sid fun s => if s.closed then s else { s with last := st1.now, notes := s.notes + 1 }).releaseHolder h
     else st
   | _ => st
 
@@ -685,8 +700,13 @@ def St.step (st : St) (e : Event) : St × Outcome :=
         ((st1.serve s.sid r).prepareIo, if st1.silentStream s.sid r then .ok else .handled s.sid)
     else
     let (st1, sid) := st.getSession p
+    -- coap_read_endpoint (after fix 0081e3a): `coap_session_reference_lkd(session); coap_handle_dgram_for_proto(…);
+    -- coap_session_release_lkd(session);` — while the datagram is handled every release inside (coap_delete_observer in
+    -- handle_request / coap_add_observer, coap_delete_node_lkd at `cleanup:`) leaves `ref ≥ 1`, so nothing is freed in
+    -- the middle of the dispatch; the bracket's own release is the one that frees a client session nothing refers to
+    -- any more (`St.clientFree`; the bracket's `++ref … --ref` is modelled by its net effect).
     -- coap_io_do_epoll_lkd ends with coap_io_prepare_epoll_lkd
-    ((st1.serve sid r).prepareIo, if st1.silent sid r then .ok else .handled sid)
+    (((st1.serve sid r).clientFree sid).prepareIo, if st1.silent sid r then .ok else .handled sid)
   | .rst p =>
     match st.lookup p with
     | none => (st, .skip)
@@ -697,7 +717,7 @@ def St.step (st : St) (e : Event) : St × Outcome :=
         let (st1, sid) := st.getSession p
         let st2 := st1.updSess sid fun t => { t with conActive := t.conActive - 1 }
         -- … `coap_session_connected(session)`: a Confirmable that waited in the delay queue is sent and queued …
-        (((st2.flushDelayed sid).dropHolder h).prepareIo, .handled sid)
+        ((((st2.flushDelayed sid).dropHolder h).clientFree sid).prepareIo, .handled sid)
   | .ack p bad =>
     -- ACK branch of coap_dispatch (and the invalid-code-class branch at its top): `coap_remove_from_queue(&sendqueue,
     -- session, pdu->mid, &sent)`, `con_active--`, `coap_session_connected(session)`; an empty ACK needs no further
@@ -712,7 +732,7 @@ def St.step (st : St) (e : Event) : St × Outcome :=
       | some h =>
         let (st1, sid) := st.getSession p
         let st2 := st1.updSess sid fun t => { t with conActive := t.conActive - 1 }
-        (((st2.flushDelayed sid).dropHolder h).prepareIo, if bad then .handled sid else .ok)
+        ((((st2.flushDelayed sid).dropHolder h).clientFree sid).prepareIo, if bad then .handled sid else .ok)
   | .sendCon p =>
     match st.lookup p with
     | none => (st, .skip)
@@ -743,7 +763,7 @@ def St.step (st : St) (e : Event) : St × Outcome :=
     | some s =>
       match st.findHolder s.sid isAsyncPlain with
       | none => (st, .skip)
-      | some h => (st.dropHolder h, .ok)
+      | some h => (st.releaseHolder h, .ok)
   | .appRef p =>
     match st.lookup p with
     | none => (st, .skip)
@@ -754,11 +774,14 @@ def St.step (st : St) (e : Event) : St × Outcome :=
     | some s =>
       match st.findHolder s.sid isApp with
       | none => (st, .skip)
-      | some h => (st.dropHolder h, .ok)
+      | some h => (st.releaseHolder h, .ok)
   | .disconnect p =>
     match st.lookup p with
     | none => (st, .skip)
-    | some s => (st.disconnectSess s, .ok)
+    | some s =>
+      -- SPEC DECISION D17: the application uses the pointer of a CLIENT session only while it holds a reference on it
+      if s.client && (st.findHolder s.sid isApp).isNone && (st.findHolder s.sid isHome).isNone then (st, .skip)
+      else (st.disconnectSess s, .ok)
   | .callHome p =>
     match st.lookup p with
     | none => (st, .skip)
@@ -773,10 +796,10 @@ def St.step (st : St) (e : Event) : St × Outcome :=
       match st.findHolder s.sid isHome with
       | none => (st, .skip)
       | some h =>
-        -- D16: the application lets go last.  coap_session_release_lkd: `--ref` (the application's token goes), then
-        -- `ref == 0 && type == CLIENT` → coap_session_free: unlinked from its endpoint's table, freed, no event
-        if s.ref ≠ 1 then (st, .skip)
-        else ((st.dropHolder h).clientFree s.sid, .ok)
+        -- at ANY time (D16 lifted).  coap_session_release_lkd: `--ref` (the application's token goes), then
+        -- `ref == 0 && type == CLIENT` → coap_session_free: unlinked from its endpoint's table, freed, no event;
+        -- `ref ≠ 0`: the session lives on as a CLIENT session until its last holder lets go (`St.releaseHolder`)
+        ((st.dropHolder h).clientFree s.sid, .ok)
   | .connect p =>
     if !p.reliable || !((p.lport, p.proto) ∈ st.eps) then (st, .skip) else
     match st.lookup p with
@@ -816,7 +839,7 @@ def St.step (st : St) (e : Event) : St × Outcome :=
       -- removed; the resource's dirty flag goes with it
       let obs := st.holders.filter fun h => isObs k h.kind
       let st1 := obs.foldl (fun acc h =>
-        (acc.updSess h.sid fun t => { t with last := st.now, notes := t.notes + 1 }).dropHolder h) st
+        (acc.updSess h.sid fun t => { t with last := st.now, notes := t.notes + 1 }).releaseHolder h) st
       ({ st1 with resAlive := st1.resAlive.filter (· ≠ k), dirty := st1.dirty.filter (· ≠ k) }, .ok)
     else (st, .skip)
   | .changed k =>
@@ -831,7 +854,7 @@ def St.step (st : St) (e : Event) : St × Outcome :=
     | some s =>
       if j < s.notes then
         let (st1, sid) := st.getSession p
-        ((st1.rstNote sid (s.notes - j)).prepareIo, .handled sid)
+        (((st1.rstNote sid (s.notes - j)).clientFree sid).prepareIo, .handled sid)
       else (st, .skip)
   | .noteAck p j =>
     match st.lookup p with
@@ -839,7 +862,7 @@ def St.step (st : St) (e : Event) : St × Outcome :=
     | some s =>
       if j < s.notes then
         -- ACK branch: coap_remove_from_queue finds nothing, an empty ACK needs no further handling
-        ((st.getSession p).1.prepareIo, .ok)
+        (((st.getSession p).1.clientFree (st.getSession p).2).prepareIo, .ok)
       else (st, .skip)
   | .advance d => ({ st with now := st.now + d }, .ok)
   | .io => (st.prepareIo, .ok)
@@ -848,9 +871,10 @@ def St.step (st : St) (e : Event) : St × Outcome :=
   | .setTimeout n => ({ st with timeout := n }, .ok)
   | .freeContext =>
     -- coap_free_context_lkd: resources (observers), send queue, async, endpoints (sessions), context
-    let st1 := st.dropHolders (st.holders.filter fun h => isAnyObs h.kind)
-    let st2 := st1.dropHolders (st1.holders.filter fun h => isNode h.kind)
-    let st3 := st2.dropHolders (st2.holders.filter fun h => isAsync h.kind)
+    -- (each of the three is a coap_session_release_lkd: a client session whose last holder goes here is freed here)
+    let st1 := st.releaseHolders (st.holders.filter fun h => isAnyObs h.kind)
+    let st2 := st1.releaseHolders (st1.holders.filter fun h => isNode h.kind)
+    let st3 := st2.releaseHolders (st2.holders.filter fun h => isAsync h.kind)
     let st4 := st3.eps.foldl St.freeEndpoint st3
     ({ (st4.freeObjs st4.ctxObjs) with ctxObjs := [], resAlive := [], freed := true }, .ok)
 
